@@ -337,6 +337,8 @@ def corpus(tier: str):
     add("variant-u64-u8", var("v5", P("u64"), P("u8")), "variant")
     add("variant-none-u8-f64", var("v6", None, P("u8"), P("f64")), "variant")
     add("variant-f32-u32", var("v7", P("f32"), P("u32")), "variant")
+    # payload-less case BEFORE a heap-owning case: discriminant != index among payload cases (seed C11-4)
+    add("variant-none-string-u32", var("v12", None, String(), P("u32")), "variant")
     if th:
         add("variant-s64-list-u8", var("v8", P("s64"), List(P("u8"))), "variant")
         add("variant-f32-f64", var("v9", P("f32"), P("f64")), "variant")
